@@ -188,11 +188,14 @@ func runC19(c *Ctx) {
 		}
 		key := shortFn(callee) + "|appends a constant suffix to every element"
 		if !ok {
-			c.Und("R3.principals", key, w.FnPos(callee), "helper is not of the form: for each p in input, append(out, p + CONST)")
+			// another helper of GetPrincipals (one that picks the suffix for the type): read in place by the decision table
 			continue
 		}
 		c.Ok("R3.principals", key, w.FnPos(callee), "suffix "+suffix)
 		helperTag[shortFn(callee)] = suffix
+	}
+	if len(helperTag) == 0 {
+		c.Und("R3.principals", "GetPrincipals|a helper appends a constant suffix to every element", w.FnPos(gp), "no helper of GetPrincipals is of the form: for each p in input, append(out, p + CONST)")
 	}
 	noInline := map[string]bool{}
 	for h := range helperTag {
